@@ -80,8 +80,10 @@ PROPERTIES = {
     "C08": {
         "decided_by": "Proved: compute_attractor_candidates covers every owned attractor on every path through its option combinations that is within the "
                       "subset (retained set from make_heuristic_retained_set assigns exactly the NFVS; asp_greedy_retained_set_optimization never "
-                      "increases the candidate count, keeps the variable set, terminates).",
-        "bounded": "all four option combinations and small / zero configuration values vs brute-force attractors",
+                      "increases the candidate count, keeps the variable set, terminates); node_attractor_candidates returns the cached list (candidates, or the "
+                      "seeds once the candidates were dropped) and never overwrites known data; expanded_attractor_candidates() maps exactly the expanded nodes "
+                      "whose list is not empty to that list, and by the cache invariant the list of every expanded node covers the attractors the node owns.",
+        "bounded": "all four option combinations and small / zero configuration values vs brute-force attractors; the collective accessor against the per-node lists",
         "excluded": [],
         "trusted": ["L7 (cited)", "run_simulation_minification, node_percolated_nfvs, state_list_to_bdd (assumed contracts)"],
     },
